@@ -154,7 +154,16 @@ def op_thermal_job(w, s):
     model = e.obj.model
     if not model.e_dofs or not model.v_dofs or any(not (b.is_phonon or type(b).__name__ in ("BasisSimpleElectron", "BasisMultiElectronVac")) for b in model.basis):
         return "skipped"
-    H = dense.dense_op(model, model.ham_terms)
+    h_terms = list(model.ham_terms)
+    hmodel = None
+    if s.get("hmods"):
+        # the Hamiltonian of the job is given separately from the model the initial state was built on (h_mpo_model)
+        from renormalizer.model import Model
+        if len(s["hmods"]) != len(h_terms):
+            return "skipped"
+        h_terms = [t * f for t, f in zip(h_terms, s["hmods"])]
+        hmodel = Model(model.basis, h_terms)
+    H = dense.dense_op(model, h_terms)
     if float(np.abs(H - H.conj().T).max()) > 1e-12:
         return "skipped"
     hn = float(np.linalg.norm(H, 2))
@@ -181,7 +190,11 @@ def op_thermal_job(w, s):
     exact = bool(s.get("exact"))
     w.cur_op = "thermal_job"
     try:
-        job = ThermalProp(init, exact=exact, space=s.get("space", "GS"), evolve_config=ec, auto_expand=False)
+        if hmodel is not None:
+            job = ThermalProp(init, h_mpo_model=hmodel, exact=exact, space=s.get("space", "GS"), evolve_config=ec, auto_expand=False)
+            w.stats.probes["thermal_h_mpo_model"] += 1
+        else:
+            job = ThermalProp(init, exact=exact, space=s.get("space", "GS"), evolve_config=ec, auto_expand=False)
         for _ in range(k):
             job.evolve(evolve_dt=-1j * tau, nsteps=1)
     except (Violation, HarnessError):
@@ -335,6 +348,11 @@ def p_thermal_job(w, rnd):
         h = spec["holstein"]
         if e.meta.get("max_entangled") == "gs":
             s.update(exact=True, space="GS")
+    if not s.get("exact") and rnd.random() < 0.3:
+        # Hermitian pairs stay Hermitian only with a common multiplier: one factor for all terms plus exact sign flip of all
+        f = round(rnd.uniform(0.4, 1.6), 3) * rnd.choice([1, -1])
+        s["hmods"] = [f] * len(model.ham_terms)
+        s["tau"] = round(x / (hn * abs(f)), 6)
     return s
 
 
